@@ -471,7 +471,7 @@ def recorded_relative_cases(run):
 
 
 OUTCOME_HEAD = """From Coq Require Import List Bool Arith.
-From NV Require Import Model.FitCore Model.FitOutcome.
+From NV Require Import Model.FitCore Model.FitOutcome Model.FitRelative.
 Import ListNotations.
 Definition o (seg : list bool) (n : nat) : optres nat nat :=
   mkO n n (repeat n (count seg)) (repeat n (count seg)) n n.
@@ -588,6 +588,13 @@ def outcome_model_cases(run):
                             b(~np.isnan(idnt["fit"])),
                             b(~np.isnan(idnt["fit residuals"]))))
                     descr.append(what)
+                    # the pass schedule of a relative fit (Model/FitRelative.v)
+                    if kw.get("range_type") == "relative cp" and \
+                            not fp.get("optimal_fit_edelta"):
+                        exprs.append("rel_shape [%s]" % ";".join(
+                            "(%d,%d)" % (l_[0], l_[1]) for l_ in log))
+                        descr.append(what + " (pass schedule: "
+                                     + str([l_[:3] for l_ in log]) + ")")
                     prev = bool(fp.get("success"))
     finally:
         nfit.IndentationFitter._fit = orig
@@ -595,8 +602,9 @@ def outcome_model_cases(run):
                                head=OUTCOME_HEAD, chunk=30)
     for i in bad:
         run.failing(SITE, "outcome:" + common.sha(descr[i])[:16],
-                    f"{descr[i]}: what the fit leaves behind differs from the "
-                    "outcome of its last pass (coq/Model/FitOutcome.v): "
+                    f"{descr[i]}: what the fit leaves behind / its pass "
+                    "schedule differs from the model (coq/Model/FitOutcome.v, "
+                    "FitRelative.v): "
                     + exprs[i][-200:],
                     payload={"kind": "rerun"},
                     theorem="C04_outcome_is_last_pass")
@@ -617,7 +625,8 @@ def check(run):
         run.obligation("translation", False, str(e))
     common.prove(run, "C04", extra_targets=["Model/FitCoreF.vo",
                                             "Gen/WeightsF.vo",
-                                            "Model/FitOutcome.vo"])
+                                            "Model/FitOutcome.vo",
+                                            "Model/FitRelative.vo"])
     run.trusted = [
         "Coq 8.16.1 kernel + vm_compute with primitive floats (bit-exact "
         "execution of the binary64 instance); Reals axioms for the theorems",
